@@ -19,6 +19,7 @@ mod net;
 mod ops;
 mod prng;
 mod scratch;
+mod stress;
 mod subject;
 mod vfs;
 mod wrap;
